@@ -163,7 +163,7 @@ Definition mon_c03 (cs : list N) : list N :=
   | None => [0; V_BADCASE]
   | Some c =>
     match pc_rest c with
-    | [0] => []
+    | [0] => if packet_ok (pc_ver c) (pc_idw c) (pc_body c) then [0; V_MONITOR; 6] else []   (* a packet the specification allows is refused *)
     | [2] => [0; V_MONITOR; 1]
     | 1 :: r =>
       match tk_lp r with
